@@ -213,3 +213,35 @@ func GoodTimingStats(st *runStats, work func()) {
 	work()
 	st.Elapsed += time.Since(start)
 }
+
+// ---- no-follow discipline (R19.5 / R06.5)
+
+// BadStatThenReplace decides what to do with a path from os.Stat, which follows
+// links: a dangling link looks like nothing, a link to a directory like a directory.
+func BadStatThenReplace(path string) error {
+	if _, err := os.Stat(path); err == nil {
+		if err := os.RemoveAll(path); err != nil {
+			return err
+		}
+	}
+	return os.MkdirAll(path, 0o755)
+}
+
+// GoodLstatThenReplace looks at the entry itself.
+func GoodLstatThenReplace(path string) error {
+	if _, err := os.Lstat(path); err == nil {
+		if err := os.RemoveAll(path); err != nil {
+			return err
+		}
+	}
+	return os.MkdirAll(path, 0o755)
+}
+
+// GoodStatOnly sizes an archive; it changes nothing.
+func GoodStatOnly(path string) (int64, error) {
+	st, err := os.Stat(path)
+	if err != nil {
+		return 0, err
+	}
+	return st.Size(), nil
+}
